@@ -299,6 +299,19 @@ def run(ctx):
         scripts.append(("crash", lines))
     for lines in witness_scripts(ctx):
         scripts.append(("witness", lines))
+    # initial values across the whole range the platform allows (SEM_VALUE_MAX is INT_MAX here, _POSIX_SEM_VALUE_MAX only 32767)
+    for iv in (32767, 32768, 65536, 100000, 2000000000):
+        scripts.append(("bigvalue", ["P 1 semnew 1 1 %d create" % iv, "P 1 val 1", "P 2 semnew 1 1 7 open", "P 2 val 1", "P 2 acq 1", "P 1 val 1", "P 2 rel 1", "P 2 free 1",
+                                     "P 3 semnew 2 2 %d open" % iv, "P 3 val 2", "P 3 own 2", "P 3 free 2", "P 1 free 1",
+                                     "P 1 semnew 3 1 0 open", "P 1 own 3", "P 1 free 3", "P 1 semnew 3 2 0 open", "P 1 own 3", "P 1 free 3", "obs", "epoch"]))
+    # the environment refuses a system call inside an OPEN-mode p_semaphore_new (descriptor table full, ...): the call may fail, but a semaphore
+    # that exists keeps its units (a third process still sees them), and nothing is left behind for a name that did not exist
+    for skip in (0, 1):
+        for en in (24, 23, 12):
+            scripts.append(("inject", ["P 1 semnew 1 1 3 create", "X 2 sem_open %d %d" % (en, skip), "P 2 semnew 1 1 2 open", "P 2 val 1", "P 2 free 1",
+                                       "P 3 semnew 1 1 0 open", "P 3 val 1", "P 3 acq 1", "P 3 rel 1", "P 3 free 1", "P 1 free 1",
+                                       "X 2 sem_open %d %d" % (en, skip), "P 2 semnew 1 2 2 open", "P 2 free 1", "P 3 semnew 1 2 1 open", "P 3 val 1", "P 3 own 1", "P 3 free 1",
+                                       "P 1 semnew 3 1 0 open", "P 1 own 3", "P 1 free 3", "P 1 semnew 3 2 0 open", "P 1 own 3", "P 1 free 3", "obs", "epoch"]))
     names = ["%s_%d" % (prefix, n) for n in (1, 2, 3)]
     files = []
     try:
